@@ -311,7 +311,7 @@ def correspondence(ctx):
     r = Rng(ctx.seed).fork("c16")
     corp = hostile_corpus()
     per_kind = ctx.budget(150, 1500)
-    deadline = time.time() + ctx.budget(78, 800)
+    deadline = time.time() + ctx.budget(72, 800)
     sessions = dict((k, 0) for k in KINDS)
     believed = 0
     cases = corpus()
